@@ -262,6 +262,56 @@ func (q c02Data) eval(s *c02Stream, _ time.Time) bool {
 	return re.MatchString(s.cData) || re.MatchString(s.sData)
 }
 
+// a THEN chain of payload filters: each element is searched in its direction's payload from where the
+// previous match ended; a match ending inside chunk i puts the other direction's position after chunk i
+type c02Then struct{ E []c02Data }
+
+func (q c02Then) str() string {
+	var parts []string
+	for _, e := range q.E {
+		parts = append(parts, e.str())
+	}
+	return "(" + strings.Join(parts, " then ") + ")"
+}
+
+func (q c02Then) eval(s *c02Stream, _ time.Time) bool {
+	data := [2]string{s.cData, s.sData}
+	// cumulative lengths after every chunk
+	cum := [][2]int{{0, 0}}
+	client := !s.ServerFirst
+	for _, ch := range s.Chunks {
+		l := cum[len(cum)-1]
+		if client {
+			l[0] += len(ch)
+		} else {
+			l[1] += len(ch)
+		}
+		cum = append(cum, l)
+		client = !client
+	}
+	off := [2]int{0, 0}
+	for _, e := range q.E {
+		d := 0
+		if e.Key == "sdata" {
+			d = 1
+		}
+		m := regexp.MustCompile(e.Re).FindStringIndex(data[d][off[d]:])
+		if m == nil {
+			return false
+		}
+		if m[1] != 0 {
+			off[d] += m[1]
+			for i := len(cum) - 1; i >= 1; i-- {
+				if cum[i-1][d] < off[d] {
+					off[1-d] = cum[i][1-d]
+					break
+				}
+			}
+		}
+	}
+	return true
+}
+
 // a tag filter: decided streams follow the stored match set, undecided ones the tag's definition
 type c02TagModel struct {
 	Name      string
@@ -299,6 +349,7 @@ var (
 	c02Addrs   = []string{"10.0.0.1", "10.0.0.2", "10.0.1.1", "192.168.0.1", "10.0.0.129", "fd00::1", "fd00::2", "fd00:0:1::1"}
 	c02Ports   = []uint16{80, 443, 1234, 8080, 31337}
 	c02Chunks  = []string{"foo", "bar", "GET /flag", "foobar", "baz", "xfoo", "ooo", "f", "oo", "flag{abc}"}
+	c02AnchorRegexes = []string{"o$", "^foo", "\\bfoo", "bar\\b", "\\Aba", "z\\z", "^GET", "g\\b"}
 	c02Regexes = []string{"foo", "ba[rz]", "o+b", "f.o", "foo|baz", "(GET|PUT) /", "flag\\{[a-c]+\\}", "o{3}", "oba", "xyz", "fo+bar"}
 )
 
@@ -358,6 +409,17 @@ func genRanges(rng *rand.Rand, vals []int64) []c02Range {
 }
 
 func genAtom(rng *rand.Rand, withData bool) c02Q {
+	if withData && os.Getenv("C02_THEN") != "" && rng.Intn(2) == 0 {
+		res := c02Regexes
+		if os.Getenv("C02_ANCHORS") != "" {
+			res = append(append([]string{}, c02Regexes...), c02AnchorRegexes...)
+		}
+		var th c02Then
+		for k := 1 + rng.Intn(3); k > 0; k-- {
+			th.E = append(th.E, c02Data{[]string{"cdata", "sdata"}[rng.Intn(2)], res[rng.Intn(len(res))]})
+		}
+		return th
+	}
 	if len(c02Tags) > 0 && rng.Intn(3) == 0 {
 		return c02Tag{c02Tags[rng.Intn(len(c02Tags))]}
 	}
@@ -461,6 +523,8 @@ func nfSize(q c02Q) (n, k float64) {
 		if x.Key == "data" {
 			n = 2
 		}
+	case c02Then:
+		n, k = 1, 1
 	case c02Tag:
 		// inlined as (decided) or (undecided and definition)
 		n1, k1 := nfSize(x.T.Def)
